@@ -84,7 +84,7 @@ func runLifeCase(c LifeCase) *failure {
 			SrcClient: int64(1000 + i), TgtClient: 1<<53 + int64(i), Host: Str{Lit: "10.0.0.9"}, Port: 3306 + gen}
 	}
 	var tuns []*tun
-	t0 := time.Now()
+	watch := startWatch()
 	for i := 0; i < c.Tunnels; i++ {
 		tn := &tun{id: fmt.Sprintf("life:%d*", i), spec: spec(i, 0)}
 		if err := nodes[i%maxNodes].RegisterWaitingTunnel(ctx, tn.spec.build(tn.id)); err != nil {
@@ -101,7 +101,7 @@ func runLifeCase(c LifeCase) *failure {
 	}
 	checkAll := func(when string) *failure {
 		// the whole case must stay far away from the records' wall-clock ExpiresAt (it takes milliseconds)
-		if time.Since(t0) > ttl/4 {
+		if watch.suspect(ttl / 4) {
 			vkit.Skipped(1)
 			return nil
 		}
